@@ -280,6 +280,18 @@ def s2(chk: Check, proj: Project, m) -> None:
     gi = guards[0].meta.get("owner") if guards else None
     requeue = isinstance(gi, ast.If) and isinstance(gi.body[-1], ast.Continue) and any("extendleft" in norm(s) and uv in norm(s) and keyv in norm(s) for s in gi.body)
     chk.ob("S2", "component_media:_get_comp_cls_media:store-after-bases", m.loc(store), okd and requeue, "the memo is written only after `if unresolved_bases: requeue bases + class; continue`" if okd and requeue else "the memo can be written while selected bases are still unresolved")
+    # the entry is COMPLETE when it is published: nothing writes through the stored object after the store, and the loop that
+    # merges the bases' entries into it has run before (another thread reads the memo without any lock)
+    if isinstance(store.value, ast.Name):
+        sv = store.value.id
+        later_writes = [x for x in body_walk(f) if getattr(x, "lineno", 0) > store.lineno and ((isinstance(x, ast.Attribute) and isinstance(x.ctx, ast.Store) and norm(x.value) == sv) or (isinstance(x, ast.AugAssign) and norm(x.target) == sv)
+                        or (isinstance(x, ast.Call) and isinstance(x.func, ast.Attribute) and norm(x.func.value) == sv and x.func.attr in ("append", "extend", "update", "add", "merge", "__iadd__")))]
+        merge_loops = [x for x in body_walk(f) if isinstance(x, ast.For) and "media_cache.get(" in norm(x)]
+        late_merge = [x for x in merge_loops if x.lineno > store.lineno]
+        okc = not later_writes and not late_merge
+        chk.ob("S2", "component_media:_get_comp_cls_media:entry-complete-when-published", m.loc((later_writes or late_merge or [store])[0]), okc,
+               "the memo entry is stored after the merge loop and never written through afterwards" if okc else
+               f"`{short(store)}` publishes the class's Media BEFORE the bases have been merged into it (`{short(enclosing_stmt((later_writes or late_merge)[0]), 60)}` comes later and changes the published object in place): a thread that reads the memo in between renders the component without the files it inherits")
     # the iteration source of `bases` used in the comprehension is the same `bases` merged later
     merged_iter = [x for x in body_walk(f) if isinstance(x, ast.For) and "media_cache.get(" in norm(x)]
     src = norm(comp.generators[0].iter)
